@@ -68,3 +68,5 @@ SPEC = {'id': 'C04',
 
 SPEC['rule'] += (' Added after the seeded-change rounds: ' +
     "Oracle-only scenarios (shared with C02/C03): same-sid-two-idle-polls (both polls under one id must complete at their timeouts and leave gauge and id map clean), an answer that arrives before any offer followed by the poll's timeout, several polls whose timers fall in the same millisecond.")
+
+SPEC['thorough_passes'] = 3  # the thorough tier runs the whole harness under this many consecutive seeds
